@@ -79,7 +79,7 @@ def replay_walk(s, hist, A, n_shuffles):
 
 def public_call(c):
     A = c["A"]
-    x = base.encode_batch(c["x"], A, [torch.float32, torch.int8, torch.float64, torch.int64][c.get("dt", 0) % 4])
+    x = base.encode_batch(c["x"], A, [torch.float32, torch.int8, torch.float64, torch.int64, torch.float16, torch.bfloat16, torch.uint8][c.get("dt", 0) % 7])
     d0 = base.tdig(x)
     ev = dict(c)
     ev.update(y=[], valid=True)
@@ -134,6 +134,18 @@ def gen_public(rng, key):
     return dict(op=op, A=A, x=x, start=start, end=end, n=n, seed=seed, key=key, dt=rng.randrange(4), npseed=rng.random() < 0.3)
 
 
+def gen_long(rng, key):
+    """a region in which one character occurs several hundred times (beyond 8-bit counters and half-precision integers)"""
+    A = 4
+    L = rng.choice([600, 1300])
+    w = [6, 2, 1, 1]; rng.shuffle(w)
+    x = [rng.choices(range(A), weights=w, k=L)]
+    start = rng.choice([0, 0, rng.randint(1, 20)])
+    end = rng.choice([-1, L, L - rng.randint(1, 20)])
+    return dict(op=rng.choice(["shuffle", "dinuc", "dinuc"]), A=A, x=x, start=start, end=end, n=rng.choice([1, 2]), seed=rng.randint(0, 10 ** 6),
+                key=key, dt=rng.choice([1, 4, 5, 6, 0]), npseed=False)
+
+
 def handler(case):
     mode = case.get("mode", "m1")
     if mode == "m1":
@@ -165,6 +177,8 @@ def handler(case):
         key = case["id"] * 100000 + 1
         for _ in range(case["n"] // 2):
             calls.append(gen_public(rng, key)); key += 1
+        for _ in range(2):
+            calls.append(gen_long(rng, key)); key += 1
         rep = [dict(c) for c in calls]
         for c in rep:
             c["npseed"] = not c["npseed"]            # the repetition uses the other integer type for the same seed
